@@ -23,7 +23,8 @@ for nidl in (False, True):
                                                               E("k2"), C("k2"), C("k2", kind="fetch"), C("k2", kind="base")])
 beh("f02_mixed", ["C02", "C14"], cfg(), [E("k1"), C("k1", kind="mixedFA"), C("k1", kind="mixedFA", ck="k2", chain="self"), C("k1", kind="mixedFA", priv=False), C("k1", kind="mixedAF"),
                                        C("k1", kind="mixedAF", ck="k3", chain="self"), D("k1")])
-beh("f14_aborts", ["C14"], cfg(), [E("k1"), M("clientAlert", "auth"), D("k1"), M("clientAlert", "fetch"), M("resetMidHello", "auth"), M("resetAfterHello", "fetch"), M("clientAlert", "pref"), D("k1")])
+beh("f14_aborts", ["C14"], cfg(), [E("k1"), M("clientAlert", "auth"), D("k1"), M("clientAlert", "fetch"), M("resetMidHello", "auth"), M("resetAfterHello", "fetch"), M("clientAlert", "pref"), D("k1"),
+                                   M("rawSslv2"), M("rawOversizeRecord"), M("rawHttp"), M("rawBadVersion"), D("k1")])
 beh("f02_nobase", ["C02"], cfg(base=False), [E("k1"), C("k1", kind="base"), C("k1"), C("k1", kind="fetch")])
 beh("f16_meta", ["C16"], cfg(), [E("k1"), D("k1", "none", "none"), D("k1", "one", "empty"), D("k1", "many", "nested"), D("k1", "dups", "large"), D("k1", "prefixlike", "nested"),
                                  C("k1", stt="ok"), C("k1", stt="none", pref="none")])
